@@ -1688,7 +1688,8 @@ class InTablePhase(Phase):
     # helper methods
     def clearStackToTableContext(self):
         # "clear the stack back to a table context"
-        while self.tree.openElements[-1].name not in ("table", "html"):
+        while (self.tree.openElements[-1].name not in ("table", "html") or
+               self.tree.openElements[-1].namespace != self.tree.defaultNamespace):
             # self.parser.parseError("unexpected-implied-end-tag-in-table",
             #  {"name":  self.tree.openElements[-1].name})
             self.tree.openElements.pop()
@@ -2017,8 +2018,9 @@ class InTableBodyPhase(Phase):
 
     # helper methods
     def clearStackToTableBodyContext(self):
-        while self.tree.openElements[-1].name not in ("tbody", "tfoot",
-                                                      "thead", "html"):
+        while (self.tree.openElements[-1].name not in ("tbody", "tfoot",
+                                                       "thead", "html") or
+               self.tree.openElements[-1].namespace != self.tree.defaultNamespace):
             # self.parser.parseError("unexpected-implied-end-tag-in-table",
             #  {"name": self.tree.openElements[-1].name})
             self.tree.openElements.pop()
@@ -2116,7 +2118,8 @@ class InRowPhase(Phase):
 
     # helper methods (XXX unify this with other table helper methods)
     def clearStackToTableRowContext(self):
-        while self.tree.openElements[-1].name not in ("tr", "html"):
+        while (self.tree.openElements[-1].name not in ("tr", "html") or
+               self.tree.openElements[-1].namespace != self.tree.defaultNamespace):
             self.parser.parseError("unexpected-implied-end-tag-in-table-row",
                                    {"name": self.tree.openElements[-1].name})
             self.tree.openElements.pop()
